@@ -380,6 +380,13 @@ func c12History(c *rt.Ctx, fsType string, h int) {
 		ff := failfs.New(base)
 		_ = ff.SetFailFunc(failfs.ReadOnlyFunc)
 		env := fsx.NewEnv(ff)
+		if h%2 == 1 {
+			// two wrappers stacked: an outer FailFS that lets everything through over the read-only one. The base of the
+			// outer one is the inner wrapper, whose function still decides
+			outer := failfs.New(ff)
+			_ = outer.SetFailFunc(failfs.OkFunc)
+			env = fsx.NewEnv(outer)
+		}
 		all := append([]fsx.Op{}, ops...)
 		all = append(all, fsx.Op{K: "CreateTemp", P: "/tmp", Q: "t*", H: 5}, fsx.Op{K: "F.Write", H: 5, Data: "zz"}, fsx.Op{K: "WriteFile", P: "/w/ro-probe", Data: "x", Perm: 0o644},
 			fsx.Op{K: "Symlink", P: "a", Q: "/w/ro-link"}, fsx.Op{K: "Rename", P: "/w", Q: "/w2"})
